@@ -165,6 +165,8 @@ pub struct SeqOpts {
     pub oracles: bool,
     /// Finish with a normalising housekeeping step and return the final state.
     pub want_final: bool,
+    /// Do not install the hooks object (selftest: a guard-on build behaves as shipped).
+    pub no_hooks: bool,
 }
 
 pub fn run_seq(trace: &Trace, skip: &BTreeSet<usize>, opts: &SeqOpts) -> SeqOutcome {
@@ -175,7 +177,9 @@ pub fn run_seq(trace: &Trace, skip: &BTreeSet<usize>, opts: &SeqOpts) -> SeqOutc
     let base = clock.now();
     let shared = Arc::new(Shared::default());
     let hooks = SimHooks::new(0, Arc::clone(&shared), None);
-    mini_moka::verif::install(Some(hooks.clone()));
+    if !opts.no_hooks {
+        mini_moka::verif::install(Some(hooks.clone()));
+    }
 
     let mut rep = RunReport::default();
     let mut results = Vec::with_capacity(ops.len());
@@ -981,6 +985,7 @@ fn check_fits(
 pub fn run_pair(trace: &Trace) -> RunReport {
     let skip: BTreeSet<usize> = trace.extra.iter().copied().collect();
     let opts = SeqOpts {
+        no_hooks: false,
         oracles: false,
         want_final: true,
     };
